@@ -42,7 +42,7 @@ func init() {
 		MinEvals:    floor(20000, 600000),
 		MinDistinct: floor(2000, 60000),
 		RequiredCells: func(string) []string {
-			cells := []string{"cid/ToSealed", "cid/ToSealedWriter", "cid/FromSealed", "cid/FromSealedReader", "cid/container", "cid/container-foreign-section-cid", "sig/s-flip", "sig/der-padded", "variant/extra-element"}
+			cells := []string{"cid/ToSealed", "cid/ToSealedWriter", "cid/FromSealed", "cid/FromSealedReader", "cid/container", "cid/ToSealedWriter-piecewise", "cid/container-foreign-section-cid", "sig/s-flip", "sig/der-padded", "variant/extra-element"}
 			for _, k := range []string{"widen-1", "widen-2", "widen-4", "widen-8", "indefinite", "indefinite-split", "map-reverse", "map-rotate", "float-narrow", "null-undefined", "all-knobs"} {
 				cells = append(cells, "variant/"+k)
 			}
@@ -209,6 +209,19 @@ func ecdsaSigVariants(alg string, sig []byte) map[string][]byte {
 	return out
 }
 
+// pieceWriter accepts at most max bytes per call and reports no error for the rest.
+type pieceWriter struct {
+	buf bytes.Buffer
+	max int
+}
+
+func (p *pieceWriter) Write(b []byte) (int, error) {
+	if len(b) > p.max {
+		b = b[:p.max]
+	}
+	return p.buf.Write(b)
+}
+
 func runC08(w *mon.W) {
 	r := w.Rng
 	total := w.Share(w.Pick(40, 600))
@@ -254,6 +267,28 @@ func runC08(w *mon.W) {
 			w.Violate("cid/ToSealedWriter-fails", err.Error(), desc())
 		} else if !cw.Equals(ref.CID(buf.Bytes())) {
 			w.Violate("cid/ToSealedWriter", fmt.Sprintf("ToSealedWriter returned CID %s, the bytes it wrote hash to %s", cw, ref.CID(buf.Bytes())), desc())
+		}
+		// a destination that takes the data in pieces (accepts at most k bytes per Write, without
+		// an error): the call may fail, but if it succeeds the CID is the content address of
+		// what was written, and that is a complete sealed token
+		for _, k := range []int{1, 7, 64} {
+			pw := &pieceWriter{max: k}
+			cp, err := tk.ToSealedWriter(pw, s.Iss.Priv)
+			w.Eval(1)
+			w.Cover("cid/ToSealedWriter-piecewise")
+			if err != nil {
+				continue
+			}
+			if !cp.Equals(ref.CID(pw.buf.Bytes())) {
+				m := desc()
+				m["max_bytes_per_write"] = k
+				m["written_hex"] = mon.Hex(capBytes(pw.buf.Bytes(), 4096))
+				w.Violate("cid/ToSealedWriter(piecewise)", fmt.Sprintf("ToSealedWriter into a writer that accepts %d bytes per call succeeded and returned CID %s; the bytes written hash to %s", k, cp, ref.CID(pw.buf.Bytes())), m)
+			} else if _, c2, err := token.FromSealed(pw.buf.Bytes()); err != nil || !c2.Equals(cp) {
+				m := desc()
+				m["max_bytes_per_write"] = k
+				w.Violate("cid/ToSealedWriter(piecewise)/incomplete", fmt.Sprintf("ToSealedWriter into a writer that accepts %d bytes per call succeeded, but what was written does not unseal to the returned CID (err=%v)", k, err), m)
+			}
 		}
 		decs := c08Decoders(typ)
 		for _, d := range decs {
